@@ -504,7 +504,61 @@ class Path:
     def hread(self, field, ref):
         if self.read_track is not None:
             self.read_track.add(field)
-        return z3.Select(self.heap_arr(field), ref)
+        # resolve the read through the stores of this path where the written reference is the same term or provably
+        # another one (fresh allocations against older references, by the light solver): the remaining term is equal
+        # to the plain Select under the path condition and lets the syntactic list rewrites see what was stored
+        a = self.heap_arr(field)
+        r = simp(ref) if not z3.is_const(ref) else ref
+        steps = 0
+        while z3.is_store(a) and steps < 12:
+            i = a.arg(1)
+            if i.eq(r):
+                return a.arg(2)
+            if not self.distinct_refs(i, r):
+                break
+            a = a.arg(0)
+            steps += 1
+        return z3.Select(a, ref)
+
+    def distinct_refs(self, i, j):
+        def off(t):
+            if t.eq(self.alloc0):
+                return 0
+            if z3.is_add(t) and t.num_args() == 2:
+                x, y = t.arg(0), t.arg(1)
+                if y.eq(self.alloc0) and z3.is_int_value(x):
+                    return x.as_long()
+                if x.eq(self.alloc0) and z3.is_int_value(y):
+                    return y.as_long()
+            return None
+        oi, oj = off(i), off(j)
+        if oi is not None and oj is not None:
+            return oi != oj
+        if z3.is_int_value(i) and z3.is_int_value(j):
+            return i.as_long() != j.as_long()
+        dc = self.__dict__.setdefault("_distinct_cache", {})
+        key = (i.get_id(), j.get_id())
+        hit = dc.get(key)
+        if hit is not None:
+            res, n, h = hit
+            # a positive answer holds on every extension of the path condition it was derived from; a negative one
+            # only for that very path condition
+            if (len(self.pc) >= n if res else len(self.pc) == n) and hash(tuple(a.get_id() for a in self.pc[:n])) == h:
+                return res
+        self.keep.append(i)
+        self.keep.append(j)
+        n = len(self.pc)
+        h = hash(tuple(a.get_id() for a in self.pc))
+        if heavy(i) or heavy(j):
+            dc[key] = (False, n, h)
+            return False
+        self.solver.push()
+        self.solver.add(i == j)
+        self.n_solver_calls += 1
+        res = self.solver.check() == z3.unsat
+        self.solver.pop()
+        dc[key] = (res, n, h)
+        return res
 
     def hwrite(self, field, ref, value):
         self.heap[field] = z3.Store(self.heap_arr(field), ref, value)
